@@ -537,7 +537,7 @@ open Martian.ForkOrder in
 theorem expandRuntime_map_order_independent (n : Nat) (i₁ i₂ : Inner) (forks : List Fork)
     (hi : ∀ j pre, Elems.Equiv (i₁ j pre) (i₂ j pre)) :
     expandRuntime n i₁ forks = expandRuntime n i₂ forks :=
-  bfs_congr (fun j pre => (hi j pre).parts_eq) n forks
+  bfsRt_congr (fun j pre => (hi j pre).parts_eq) n forks
 
 open Martian.ForkOrder in
 /-- Closed form, all roots statically known: the cartesian product with the FIRST root varying
